@@ -199,6 +199,20 @@ func init() {
 			e.heapSet(st, k, Store(Store(hv, x, app(SInt, "u_keys_UnmX", args[1])), y, app(SInt, "u_keys_UnmY", args[1])))
 			return []Term{Ite(ok, x, Int(0)), Ite(ok, y, Int(0))}
 		},
+		"crypto/ecdsa.Sign": func(e *Exec, st *State, call *ast.CallExpr, recv Term, args []Term) []Term {
+			// (r, s, err): on success r and s are fresh integers that are, by definition, a signature of the digest
+			e.S.needBytes()
+			e.Ctx.DeclareFun("u_keys_Signed", []string{SInt, SBytes, SInt, SInt}, SBool)
+			priv, data := args[1], args[2]
+			r := e.allocRef(st, "sigr")
+			s := e.allocRef(st, "sigs")
+			err := e.Ctx.Fresh("signerr", SInt)
+			e.Ctx.Assume(st.PC, Ge(err, Int(0)))
+			k := e.regKey("G:keys.bigval", ArraySort(SInt, SInt))
+			bv := e.heapGet(st, k)
+			e.Ctx.Assume(st.PC, Implies(Eq(err, Int(0)), app(SBool, "u_keys_Signed", priv, data, Select(bv, r), Select(bv, s))))
+			return []Term{Ite(Eq(err, Int(0)), r, Int(0)), Ite(Eq(err, Int(0)), s, Int(0)), err}
+		},
 		"sort.Slice": func(e *Exec, st *State, call *ast.CallExpr, recv Term, args []Term) []Term {
 			return sortModel(e, st, call, call.Args[0])
 		},
